@@ -3633,6 +3633,16 @@ ConnStateData::sendControlMsg(HttpControlMsg msg)
 
     // HTTP/1 1xx status messages are only valid when there is a transaction to trigger them
     if (!pipeline.empty()) {
+        if (cbControlMsgSent) {
+            // With pipeline_prefetch, another pipelined transaction may deliver
+            // its 1xx while we are still writing the previous control message.
+            // There can be only one pending write (and one pending callback):
+            // drop this optional message but let its sender resume.
+            debugs(33, 3, "ignoring 1xx received while writing the previous one");
+            ScheduleCallHere(msg.cbSuccess);
+            return;
+        }
+
         HttpReply::Pointer rep(msg.reply);
         Must(rep);
         // remember the callback
